@@ -107,6 +107,8 @@ def setup_project(sb, scn, variant, backend, extra_conf=None):
     conf.update(extra_conf or {})
     sb.write(".gwfconf.json", json.dumps(conf))
     os.makedirs(sb.path(".gwf/logs"), exist_ok=True)
+    if variant % 5 == 2:
+        os.symlink("run-that-was-cleaned-up", sb.path("latest"))      # a dangling link next to the workflow's files
     if variant % 3:
         # logs left by earlier runs: of present targets and of a target that has since been removed from the
         # workflow (a preview must not tidy them up; only a real run with log cleaning may)
